@@ -352,73 +352,128 @@ func (c *Ctx) ImportRules(prop string) {
 		}
 	}
 	c.R.Floor(rule3, "stores to protection record fields in the import", nst, 6)
-	// ---- O4 parse: numbers from the file are used only below err == nil and value >= 0
+	// ---- O4 parse: every number recorded from the file is a validated, non-negative parse result
 	rule4 := "C10.O4 parse"
 	np := 0
-	for _, ci := range Calls(F, func(ci ssa.CallInstruction) bool {
-		f := ci.Common().StaticCallee()
-		return f != nil && (f.String() == "strconv.ParseInt" || f.String() == "strconv.ParseUint" || f.String() == "strconv.Atoi")
-	}) {
-		np++
-		var val ssa.Value
-		errs := map[ssa.Value]bool{}
-		for _, r := range *ci.Value().Referrers() {
-			if ex, ok := r.(*ssa.Extract); ok {
-				if ex.Index == 0 {
-					val = ex
-				} else {
-					errs[ex] = true
-				}
+	for _, b := range F.Blocks {
+		for _, ins := range b.Instrs {
+			obj, fld, st := spFieldStore(ins)
+			if st == nil {
+				continue
 			}
-		}
-		unsigned63 := ci.Common().StaticCallee().String() == "strconv.ParseUint" && an.IsConstInt(ci.Common().Args[2], 63)
-		bad := false
-		for _, b := range F.Blocks {
-			for _, ins := range b.Instrs {
-				_, _, st := spFieldStore(ins)
-				if st == nil {
-					continue
-				}
-				sv := st.Val
-				if cv, ok := sv.(*ssa.Convert); ok {
-					sv = cv.X
-				}
-				if sv != val {
-					continue
-				}
-				target := ssa.Instruction(st)
-				if x, path := an.Cut(an.CutQuery{From: an.After(ci), Target: func(i ssa.Instruction) bool { return i == target },
-					AcceptEdge: func(b *ssa.BasicBlock, i int, a *an.Atom) bool { return errNilAtom(a, errs) }}); x != nil {
-					bad = true
-					c.R.Fail(rule4, Fn(F)+":"+c.Pos(ci), c.Pos(st), "a number that failed to parse is used", "use only below [err == nil]", an.PathString(c.Pos, path))
-				}
-				if !unsigned63 {
-					if x, path := an.Cut(an.CutQuery{From: an.After(ci), Target: func(i ssa.Instruction) bool { return i == target },
-						AcceptEdge: func(b *ssa.BasicBlock, i int, a *an.Atom) bool {
-							if a == nil {
-								return false
-							}
-							if a.Op == "<=" && an.IsConstInt(a.LV, 0) && a.RV == val {
-								return true
-							}
-							if a.Op == "<" && an.IsConstInt(a.LV, -1) && a.RV == val {
-								return true
-							}
-							return false
-						}}); x != nil {
-						bad = true
-						c.R.Fail(rule4, Fn(F)+":"+c.Pos(ci), c.Pos(st), "a negative number from the file can be recorded; -1 is the marker for 'nothing recorded', so it forges absence and drops the value paired with it", "numbers below zero are rejected", an.PathString(c.Pos, path))
-					}
-				}
+			if _, kind := raisingStore(F, st, obj, fld); kind != "guarded" {
+				continue
 			}
-		}
-		if !bad {
-			c.R.OK(rule4, Fn(F)+":"+c.Pos(ci), c.Pos(ci), "parsed number used only below [err == nil] and [value >= 0]")
+			np++
+			why, path := c.validatedNumber(st.Val, F, st, 0)
+			if why != "" {
+				c.R.Fail(rule4, Fn(F)+":"+fld+"@"+c.Pos(st), c.Pos(st), "the value recorded as "+fld+" "+why, "numbers from the file are used only below [parse err == nil] and proven to lie in [0, 2^63)", path)
+			} else {
+				c.R.OK(rule4, Fn(F)+":"+fld+"@"+c.Pos(st), c.Pos(st), "recorded value is a parse result used below [err == nil] and proven non-negative / within int64")
+			}
 		}
 	}
-	c.R.Floor(rule4, "numbers parsed from the interchange file", np, 3)
+	c.R.Floor(rule4, "numbers recorded from the interchange file", np, 3)
 	// ---- O5 rules-level import
 	c.rulesLevelImport(prop, s)
+}
+
+// validatedNumber checks that v (used at instruction `at` in fn) is a decimal parse result that is known to have
+// succeeded and to be in [0, 2^63). It returns "" if so, else a description (and a witness path).
+func (c *Ctx) validatedNumber(v ssa.Value, fn *ssa.Function, at ssa.Instruction, depth int) (string, []string) {
+	if depth > 3 {
+		return "comes through too many helpers to validate", nil
+	}
+	needCut := func(from ssa.Instruction, acc func(a *an.Atom) bool, what string) (string, []string) {
+		x, path := an.Cut(an.CutQuery{From: an.After(from), Target: func(i ssa.Instruction) bool { return i == at },
+			AcceptEdge: func(b *ssa.BasicBlock, i int, a *an.Atom) bool { return acc(a) }})
+		if x != nil {
+			return what, an.PathString(c.Pos, path)
+		}
+		return "", nil
+	}
+	nonNeg := func(val ssa.Value) func(a *an.Atom) bool {
+		return func(a *an.Atom) bool {
+			if a == nil {
+				return false
+			}
+			if a.Op == "<=" && an.IsConstInt(a.LV, 0) && a.RV == val {
+				return true
+			}
+			if a.Op == "<" && an.IsConstInt(a.LV, -1) && a.RV == val {
+				return true
+			}
+			return false
+		}
+	}
+	// conversion int64 <- uint64 of an unsigned parse
+	if cv, ok := v.(*ssa.Convert); ok {
+		ex, ok := cv.X.(*ssa.Extract)
+		if !ok {
+			return "is a conversion of something that is not a parse result: " + an.Term(cv.X), nil
+		}
+		call, ok := ex.Tuple.(*ssa.Call)
+		if !ok || call.Call.StaticCallee() == nil || call.Call.StaticCallee().String() != "strconv.ParseUint" {
+			return "is a conversion of something that is not a parse result: " + an.Term(cv.X), nil
+		}
+		errs := map[ssa.Value]bool{}
+		for _, e := range errValuesOfCall(call) {
+			errs[e] = true
+		}
+		if w, p := needCut(call, func(a *an.Atom) bool { return errNilAtom(a, errs) }, "can be used although parsing failed"); w != "" {
+			return w, p
+		}
+		if an.IsConstInt(call.Call.Args[2], 63) {
+			return "", nil
+		}
+		// needs a bound: u <= MaxInt64
+		return needCut(call, func(a *an.Atom) bool {
+			if a == nil || a.LV != ssa.Value(ex) {
+				return false
+			}
+			u, ok := an.ConstUint64(a.RV)
+			return ok && ((a.Op == "<=" && u <= 1<<63-1) || (a.Op == "<" && u <= 1<<63))
+		}, "is an unsigned 64-bit number narrowed to int64 without a bound: values >= 2^63 wrap to negative numbers (2^64-1 becomes the 'nothing recorded' marker -1) and the watermark is silently lost")
+	}
+	ex, ok := v.(*ssa.Extract)
+	if !ok || ex.Index != 0 {
+		return "is not a parse result: " + an.Term(v), nil
+	}
+	call, ok := ex.Tuple.(*ssa.Call)
+	if !ok || call.Call.StaticCallee() == nil {
+		return "is not a parse result: " + an.Term(v), nil
+	}
+	errs := map[ssa.Value]bool{}
+	for _, e := range errValuesOfCall(call) {
+		errs[e] = true
+	}
+	if w, p := needCut(call, func(a *an.Atom) bool { return errNilAtom(a, errs) }, "can be used although parsing failed"); w != "" {
+		return w, p
+	}
+	callee := call.Call.StaticCallee()
+	switch callee.String() {
+	case "strconv.ParseInt":
+		return needCut(call, nonNeg(ex), "can be negative; -1 is the marker for 'nothing recorded', so it forges absence and drops the value paired with it")
+	case "strconv.ParseUint":
+		return "is an unsigned parse result used as a signed number without conversion", nil
+	}
+	if prog.InModule(callee) && callee.Blocks != nil && callee.Signature.Results().Len() == 2 {
+		// helper: every nil-error return must return a validated number
+		for _, ret := range an.Returns(callee) {
+			if !isNilConst(unwrapErr(an.Result(ret, 1))) {
+				continue
+			}
+			if w, p := c.validatedNumber(an.Result(ret, 0), callee, ret, depth+1); w != "" {
+				// a caller-side non-negativity test can still save a signed helper result
+				if w2, _ := needCut(call, nonNeg(ex), "x"); w2 == "" && !strings.Contains(w, "narrowed") {
+					continue
+				}
+				return "(through " + Fn(callee) + ") " + w, p
+			}
+		}
+		return "", nil
+	}
+	return "is the result of " + Fn(callee) + ", not a validated parse", nil
 }
 
 func breaksToSuccess(l *Loop, imp ssa.CallInstruction) bool {
